@@ -59,6 +59,11 @@ func HScanWF() {
 		// bracketing per directive
 		switch t {
 		case Keyword:
+			// a keyword consists of letters / digits only and starts where a directive may start
+			for p := b; p <= e; p++ {
+				c := data[p]
+				vAssert(c >= 'A' && c <= 'Z' || c >= 'a' && c <= 'z' || c >= '0' && c <= '9', "c12-keyword-lexeme-with-foreign-byte")
+			}
 			q = vQK
 		case Parameter:
 			vAssert(q == vQK, "c12-parameter-not-after-keyword")
@@ -66,12 +71,14 @@ func HScanWF() {
 			vAssert(q == vQK, "c12-annotation-not-after-keyword-or-parameter")
 			q = vQA
 		case ContextExplicitOpening:
+			vAssert(b == e && data[b] == '(', "c12-opening-parenthesis-lexeme-is-not-the-parenthesis")
 			if q == vQK || q == vQA {
 				q = vQOk
 			} else {
 				q = vQO0
 			}
 		case ContextExplicitClosing:
+			vAssert(b == e && data[b] == ')', "c12-closing-parenthesis-lexeme-is-not-the-parenthesis")
 			q = vQ0
 		case Schema, Text, Enum, Json:
 			vAssert(q == vQK || q == vQA || q == vQOk, "c12-body-without-keyword-or-second-body")
